@@ -70,6 +70,15 @@ type frame struct {
 	atHit    map[string]bool
 	arrLen   map[ssa.Value]int // known length of slices made from local arrays (variadic calls)
 	curBlock *ssa.BasicBlock
+	// transparent: the frame of a helper that did not exist when the contract names
+	// were recorded (code extracted from the function under contract). Its loops and
+	// calls are numbered as if its body stood at the call site, its loops take the
+	// contract's invariants, and names resolve in the helper first, then in the caller
+	// at the call site.
+	transparent bool
+	site        *ssa.Call // call site of a transparent frame in its parent
+	curSite     *ssa.Call
+	ordBase     int // loops (virtual numbering) that precede this frame's body
 }
 
 func (s *Sym) newFrame(fn *ssa.Function, depth int) *frame {
@@ -409,27 +418,7 @@ func (fr *frame) prepareLoops() {
 		return
 	}
 	// ordinals by matching AST loop statements
-	var astLoops []ast.Node
-	if syn := fn.Syntax(); syn != nil {
-		var body ast.Node
-		switch x := syn.(type) {
-		case *ast.FuncDecl:
-			body = x.Body
-		case *ast.FuncLit:
-			body = x.Body
-		}
-		if body != nil {
-			ast.Inspect(body, func(n ast.Node) bool {
-				switch n.(type) {
-				case *ast.FuncLit:
-					return false
-				case *ast.ForStmt, *ast.RangeStmt:
-					astLoops = append(astLoops, n)
-				}
-				return true
-			})
-		}
-	}
+	astLoops := astLoopsOf(fn)
 	for _, li := range fr.loops {
 		var minP, maxP token.Pos
 		for b := range li.body {
@@ -506,6 +495,179 @@ func (fr *frame) prepareLoops() {
 			}
 		}
 	}
+	// virtual numbering: loops of helpers extracted from the function under contract count
+	// at their call site
+	if fr.isTop || fr.transparent {
+		for _, li := range fr.loops {
+			if li.ordinal > 0 {
+				li.ordinal = fr.ordBase + li.ordinal + fr.s.helperLoopsBefore(fr.fn, astLoops[li.ordinal-1].Pos())
+			}
+		}
+	}
+}
+
+// astLoopsOf: the loop statements of fn in source order (closures excluded).
+func astLoopsOf(fn *ssa.Function) []ast.Node {
+	var astLoops []ast.Node
+	if syn := fn.Syntax(); syn != nil {
+		var body ast.Node
+		switch x := syn.(type) {
+		case *ast.FuncDecl:
+			body = x.Body
+		case *ast.FuncLit:
+			body = x.Body
+		}
+		if body != nil {
+			ast.Inspect(body, func(n ast.Node) bool {
+				switch n.(type) {
+				case *ast.FuncLit:
+					return false
+				case *ast.ForStmt, *ast.RangeStmt:
+					astLoops = append(astLoops, n)
+				}
+				return true
+			})
+		}
+	}
+	return astLoops
+}
+
+// isNewHelper: a repository function without contract that the function under contract
+// did not call when the contract names were recorded.
+func (s *Sym) isNewHelper(callee *ssa.Function) bool {
+	if callee == nil || callee.Blocks == nil || callee.Parent() != nil || callee.Pkg == nil || !IsRepoPath(callee.Pkg.Pkg.Path()) {
+		return false
+	}
+	if s.P.Recorded == nil || s.Top == nil {
+		return false
+	}
+	rec := s.P.Recorded[FuncKey(s.Top)]
+	if rec == nil {
+		return false
+	}
+	key := FuncKey(callee)
+	if s.P.contractFor(key) != nil {
+		return false
+	}
+	if _, known := s.P.Recorded[key]; known {
+		return false
+	}
+	for _, c := range rec.Callees {
+		if c == key {
+			return false
+		}
+	}
+	// it must be new altogether: not a function that some other recorded function called
+	if s.P.knownCallee == nil {
+		s.P.knownCallee = map[string]bool{}
+		for _, r := range s.P.Recorded {
+			for _, c := range r.Callees {
+				s.P.knownCallee[c] = true
+			}
+		}
+	}
+	return !s.P.knownCallee[key]
+}
+
+type helperCall struct {
+	pos    token.Pos
+	callee *ssa.Function
+}
+
+func (s *Sym) newHelperCalls(fn *ssa.Function) []helperCall {
+	var out []helperCall
+	for _, b := range fn.Blocks {
+		for _, in := range b.Instrs {
+			c, ok := in.(*ssa.Call)
+			if !ok {
+				continue
+			}
+			if ce := c.Common().StaticCallee(); ce != nil && s.isNewHelper(ce) {
+				out = append(out, helperCall{c.Pos(), ce})
+			}
+		}
+	}
+	return out
+}
+
+func (s *Sym) loopCount(fn *ssa.Function, depth int) int {
+	if depth > maxInlineDepth {
+		return 0
+	}
+	n := len(astLoopsOf(fn))
+	for _, h := range s.newHelperCalls(fn) {
+		n += s.loopCount(h.callee, depth+1)
+	}
+	return n
+}
+
+// helperLoopsBefore: loops inside helpers called from fn before position p.
+func (s *Sym) helperLoopsBefore(fn *ssa.Function, p token.Pos) int {
+	n := 0
+	for _, h := range s.newHelperCalls(fn) {
+		if h.pos < p {
+			n += s.loopCount(h.callee, 1)
+		}
+	}
+	return n
+}
+
+func (s *Sym) matchesCallee(k, callee string) bool {
+	return k == callee || strings.HasSuffix(k, "."+callee) || strings.HasSuffix(k, "/"+callee)
+}
+
+// callCount: calls of callee in fn and in the helpers extracted from it.
+func (s *Sym) callCount(fn *ssa.Function, callee string, before token.Pos, depth int) int {
+	if depth > maxInlineDepth {
+		return 0
+	}
+	n := 0
+	for _, b := range fn.Blocks {
+		for _, in := range b.Instrs {
+			c, ok := in.(*ssa.Call)
+			if !ok {
+				continue
+			}
+			if before != token.NoPos && c.Pos() >= before {
+				continue
+			}
+			if s.matchesCallee(s.calleeKeyOf(c.Common()), callee) {
+				n++
+			}
+			if ce := c.Common().StaticCallee(); ce != nil && s.isNewHelper(ce) {
+				n += s.callCount(ce, callee, token.NoPos, depth+1)
+			}
+		}
+	}
+	return n
+}
+
+// resolveName: a source-level name at a program point of this frame; in the frame of an
+// extracted helper the helper's own parameters and locals first, then the caller's at
+// the call site.
+func (fr *frame) resolveName(name string, blk *ssa.BasicBlock, limit ssa.Instruction, st *State) (TV, bool) {
+	if !fr.isTop {
+		for _, p := range fr.fn.Params {
+			if p.Name() == name {
+				return fr.val(p, st), true
+			}
+		}
+		for _, fv := range fr.fn.FreeVars {
+			if fv.Name() == name {
+				if l, ok := fr.locs[fv]; ok {
+					return fr.load(st, l), true
+				}
+				return fr.val(fv, st), true
+			}
+		}
+	}
+	if v, ok := fr.lookupLocalBefore(name, blk, limit, st); ok {
+		return v, true
+	}
+	if fr.transparent && fr.parent != nil && fr.site != nil {
+		return fr.parent.resolveName(name, fr.site.Block(), fr.site, st)
+	}
+	return TV{}, false
 }
 
 // instrMods adds the heap maps one instruction may modify (transitively through calls).
@@ -728,7 +890,35 @@ func (fr *frame) run(st *State) ([]TV, *State) {
 				s.addObl(&Obligation{Name: fmt.Sprintf("%s#loop%d:established:%s", shortKey(FuncKey(s.Top)), li.ordinal, c.Label), Props: fr.propsOf(c), Kind: "loop-established", Label: c.Label, Goal: fmt.Sprintf("(=> %s %s)", cur.Guard, g), Src: c.Src})
 			}
 			// havoc loop-modified state
+			ghostFrames := fr.loopGhostFrames(li, cur)
+			ghostBefore := map[string]string{}
+			for m := range ghostFrames {
+				if s.mapSort[m] == "" {
+					delete(ghostFrames, m)
+					continue
+				}
+				ghostBefore[m] = s.getMap(cur, m, s.mapSort[m])
+			}
+			topBefore := s.top(cur)
 			s.havoc(cur, li.mods, "loop")
+			{
+				var ms []string
+				for m := range ghostFrames {
+					ms = append(ms, m)
+				}
+				sort.Strings(ms)
+				for _, m := range ms {
+					if s.mapSort[m] == "" {
+						continue
+					}
+					after := s.getMap(cur, m, s.mapSort[m])
+					conds := []string{fmt.Sprintf("(<= x %s)", topBefore)}
+					for _, k := range ghostFrames[m] {
+						conds = append(conds, fmt.Sprintf("(not (= x %s))", k))
+					}
+					s.assume(cur, fmt.Sprintf("(forall ((x Int)) (! (=> %s (= (select %s x) (select %s x))) :pattern ((select %s x))))", mkAnd(conds), after, ghostBefore[m], after))
+				}
+			}
 			for _, p := range phis {
 				nv := s.freshValue(cur, fr.name(p)+".inv", p.Type())
 				li.phiNew[p] = nv
@@ -834,7 +1024,7 @@ func (fr *frame) propsOf(c Clause) []string {
 }
 
 func (fr *frame) invariants(li *loopInfo) []Clause {
-	if !fr.isTop || fr.s.FC == nil {
+	if !(fr.isTop || fr.transparent) || fr.s.FC == nil {
 		return nil
 	}
 	return fr.s.FC.Loops[li.ordinal]
@@ -867,6 +1057,7 @@ func (fr *frame) backEdge(li *loopInfo, st *State, predIdx int) {
 func (fr *frame) loopEnv(li *loopInfo, st *State, phiVals map[*ssa.Phi]TV) *Env {
 	env := fr.env0.child()
 	env.st = st
+	env.localFirst = fr.transparent
 	env.local = func(name string) (TV, bool) {
 		for p, v := range phiVals {
 			if p.Comment == name {
@@ -916,20 +1107,25 @@ func (fr *frame) loopEnv(li *loopInfo, st *State, phiVals map[*ssa.Phi]TV) *Env 
 		if strings.HasPrefix(name, "$i#") {
 			// $i#N: iterations completed by the range loop with ordinal N (an enclosing loop)
 			if n, err := strconv.Atoi(name[len("$i#"):]); err == nil {
-				for _, l := range fr.loops {
-					if l.ordinal != n {
-						continue
-					}
-					for _, in := range l.header.Instrs {
-						p, ok := in.(*ssa.Phi)
-						if !ok {
-							break
+				for f := fr; f != nil; f = f.parent {
+					for _, l := range f.loops {
+						if l.ordinal != n {
+							continue
 						}
-						if p.Comment == "rangeindex" {
-							if v, ok := fr.vals[p]; ok {
-								return TV{T: fmt.Sprintf("(+ %s 1)", v.T), S: "Int"}, true
+						for _, in := range l.header.Instrs {
+							p, ok := in.(*ssa.Phi)
+							if !ok {
+								break
+							}
+							if p.Comment == "rangeindex" {
+								if v, ok := f.vals[p]; ok {
+									return TV{T: fmt.Sprintf("(+ %s 1)", v.T), S: "Int"}, true
+								}
 							}
 						}
+					}
+					if !f.transparent {
+						break
 					}
 				}
 			}
@@ -941,9 +1137,14 @@ func (fr *frame) loopEnv(li *loopInfo, st *State, phiVals map[*ssa.Phi]TV) *Env 
 			if strings.HasPrefix(name, "$visited#") {
 				target = nil
 				if n, err := strconv.Atoi(name[len("$visited#"):]); err == nil {
-					for _, l := range fr.loops {
-						if l.ordinal == n {
-							target = l
+					for f := fr; f != nil; f = f.parent {
+						for _, l := range f.loops {
+							if l.ordinal == n {
+								target = l
+							}
+						}
+						if !f.transparent {
+							break
 						}
 					}
 				}
@@ -976,6 +1177,11 @@ func (fr *frame) loopEnv(li *loopInfo, st *State, phiVals map[*ssa.Phi]TV) *Env 
 						return v, true
 					}
 				}
+			}
+		}
+		if fr.transparent {
+			if v, ok := fr.resolveName(name, li.header, nil, st); ok {
+				return v, true
 			}
 		}
 		if v, ok := fr.lookupLocal(name, li.header, st); ok {
